@@ -79,6 +79,7 @@ class Interp(Ops, B.BuiltinsMixin):
         self.exc_stack = []
         self.builtins = B.make_builtins(self)
         self.ext_models = {}   # "numpy.delete" -> value
+        self.loop_cap = 20000  # iterations of one spec-less while loop before IterationCap is raised
         self.inlined = set()
         self.opaque_globals = {}  # (module, name) -> value overrides
         from . import models
@@ -848,7 +849,11 @@ class Interp(Ops, B.BuiltinsMixin):
             yield from self.sym_loop(s, fr, spec, key, None)
             return
         n = 0
+        total = 0
         while True:
+            total += 1
+            if total > self.loop_cap:
+                raise IterationCap(f"while loop at {key} line {s.lineno} did not finish within {self.loop_cap} iterations")
             c = self.truth(self.ev(s.test, fr))
             if not isinstance(c, bool):
                 n += 1
